@@ -543,6 +543,65 @@ pub fn c05_wrong_lengths_refused() {
     core::mem::forget(r);
 }
 
+// query randomness of every wrong length, one straight-line call each (a change that drops the length check makes
+// the call run the whole query; kept separate so that the failing path stays small enough to extract and replay)
+macro_rules! wrong_query_rand_len {
+    ($name:ident, $len:expr) => {
+        #[kani::proof]
+        #[kani::unwind(8)]
+        #[kani::stub(alloc::fmt::format, fmt_stub)]
+        pub fn $name() {
+            let t = Histogram::<Field8, PS>::new(2, 1).unwrap();
+            let z = [Field8::from(3u8); 12];
+            assert!($len != t.query_rand_len());
+            let r = t.query(&z[..t.input_len()], &z[..t.proof_len()], &z[..$len], &z[..t.joint_rand_len()], 2);
+            assert!(r.is_err());
+            kani::cover!(true);
+            core::mem::forget(r);
+        }
+    };
+}
+
+//@ harness: c05_query_rand_len0
+//@ prop: C05,C16
+//@ tier: quick
+//@ cost: 40
+//@ funcs: Flp::query length check of the query randomness (Histogram(2,1) over GF(17), query_rand_len = 3)
+//@ bounds: query randomness of length 0 (expected 3), all element values concrete (3), num_shares 2
+//@ asserts: query returns an error, never panics and never succeeds
+//@ stubs: alloc::fmt::format
+wrong_query_rand_len!(c05_query_rand_len0, 0usize);
+
+//@ harness: c05_query_rand_len1
+//@ prop: C05,C16
+//@ tier: quick
+//@ cost: 40
+//@ funcs: Flp::query length check of the query randomness (Histogram(2,1) over GF(17), query_rand_len = 3)
+//@ bounds: query randomness of length 1 (expected 3), all element values concrete (3), num_shares 2
+//@ asserts: query returns an error, never panics and never succeeds
+//@ stubs: alloc::fmt::format
+wrong_query_rand_len!(c05_query_rand_len1, 1usize);
+
+//@ harness: c05_query_rand_len2
+//@ prop: C05,C16
+//@ tier: quick
+//@ cost: 40
+//@ funcs: Flp::query length check of the query randomness (Histogram(2,1) over GF(17), query_rand_len = 3)
+//@ bounds: query randomness of length 2 (expected 3), all element values concrete (3), num_shares 2
+//@ asserts: query returns an error, never panics and never succeeds
+//@ stubs: alloc::fmt::format
+wrong_query_rand_len!(c05_query_rand_len2, 2usize);
+
+//@ harness: c05_query_rand_len4
+//@ prop: C05,C16
+//@ tier: quick
+//@ cost: 40
+//@ funcs: Flp::query length check of the query randomness (Histogram(2,1) over GF(17), query_rand_len = 3)
+//@ bounds: query randomness of length 4 (expected 3), all element values concrete (3), num_shares 2
+//@ asserts: query returns an error, never panics and never succeeds
+//@ stubs: alloc::fmt::format
+wrong_query_rand_len!(c05_query_rand_len4, 4usize);
+
 // ---------------------------------------------------------------------------------------------
 // share-count scaling of the circuit constants (every share count, not only the 2..4 the suite uses)
 
